@@ -2,6 +2,7 @@ package rules
 
 import (
 	"fmt"
+	"go/constant"
 	"go/token"
 	"go/types"
 	"gofasta-verif/eval"
@@ -58,6 +59,48 @@ func C19(c *core.Ctx) {
 			}
 		}
 		c.Ob(key, ok, s.call.Pos(), "%s: the error is sent on a channel but %s", s.what, why)
+		// the error kept in a field of the writer object: every function that writes through the object reports what the
+		// field holds (the flow rule above is satisfied by ANY reader of the field; this is the per-caller obligation)
+		if fa := keptInField(ev); fa != nil {
+			fk := fieldKeyOf(fa)
+			recvT := fieldOwner(fa)
+			seenG := map[*ssa.Function]bool{}
+			var users []*ssa.Function
+			var collect func(h *ssa.Function, d int)
+			collect = func(h *ssa.Function, d int) {
+				if d > 4 {
+					return
+				}
+				for _, site := range p.callers[h] {
+					g := topFunc(site.Parent())
+					if g == nil || seenG[g] || !inRepo(g) {
+						continue
+					}
+					seenG[g] = true
+					if g.Signature.Recv() != nil && fieldOwnerOfType(g.Signature.Recv().Type()) == recvT {
+						collect(g, d+1) // another method of the writer object: its callers are the users
+						continue
+					}
+					users = append(users, g)
+				}
+			}
+			collect(tf, 0)
+			sort.Slice(users, func(i, j int) bool { return users[i].Pos() < users[j].Pos() })
+			for _, g := range users {
+				reported := false
+				allInstrs(g, func(_ *ssa.Function, ins ssa.Instruction) {
+					if u, isLoad := ins.(*ssa.UnOp); isLoad && u.Op == token.MUL {
+						if lfa, isField := u.X.(*ssa.FieldAddr); isField && fieldKeyOf(lfa) == fk {
+							if ft := p.fateOf(u); ft.returned || ft.sent {
+								reported = true
+							}
+						}
+					}
+				})
+				c.Ob(fmt.Sprintf("B1/%s/reports-the-error-kept-by-%s", fnKey(g), fnKey(tf)), reported, g.Pos(),
+					"%s writes through %s, which keeps a failed write's error in a field; %s never returns or sends what that field holds", fnKey(g), fnKey(tf), fnKey(g))
+			}
+		}
 	}
 	nsinks := 0
 	for _, n := range perFn {
@@ -433,6 +476,22 @@ func checkErrorExaminedBeforeNextWrite(c *core.Ctx, p *progFacts, sinks []sink) 
 					if uses(x.X) {
 						stopped = true
 					}
+				case *ssa.Store:
+					// the error kept in a field of the writer object, which refuses to write again once the field is set (the
+					// "sticky error" writer): the caller reads the field after its last row (B1 follows the field)
+					if fa, isField := x.Addr.(*ssa.FieldAddr); isField && uses(x.Val) && stickyErrorField(sb.Parent(), fa, sb) {
+						stopped = true
+						break
+					}
+					// on the failure branch: the error kept in another variable, or the failure remembered in a flag (a command
+					// may finish its rows and report at the end; that the variable is consulted is B1's flow rule)
+					if cur.failed {
+						if uses(x.Val) {
+							stopped = true
+						} else if k, isC := x.Val.(*ssa.Const); isC && k.Value != nil && k.Value.Kind() == constant.Bool && constant.BoolVal(k.Value) {
+							stopped = true
+						}
+					}
 				case *ssa.Panic:
 					stopped = true
 				case ssa.CallInstruction:
@@ -476,4 +535,31 @@ func checkErrorExaminedBeforeNextWrite(c *core.Ctx, p *progFacts, sinks []sink) 
 		c.Ob(key, bad == "", s.call.Pos(), "%s: the error of this write is not examined on every path: %s", s.what, bad)
 	}
 	return n
+}
+
+// keptInField: the field in which the write's error is stored, if it is.
+func keptInField(ev ssa.Value) *ssa.FieldAddr {
+	for a := range errAliases(ev) {
+		refs := a.Referrers()
+		if refs == nil {
+			continue
+		}
+		for _, r := range *refs {
+			if st, ok := r.(*ssa.Store); ok && st.Val == a {
+				if fa, ok := st.Addr.(*ssa.FieldAddr); ok {
+					return fa
+				}
+			}
+		}
+	}
+	return nil
+}
+
+func fieldOwner(fa *ssa.FieldAddr) string { return fieldOwnerOfType(fa.X.Type()) }
+
+func fieldOwnerOfType(t types.Type) string {
+	if pt, ok := t.Underlying().(*types.Pointer); ok {
+		t = pt.Elem()
+	}
+	return t.String()
 }
